@@ -107,6 +107,20 @@ pub fn param_sweep_plans(mon: Mon, acts1: Vec<Act>, acts2: Vec<Act>, tier: Tier)
             }
         }
     }
+    // clock origins: the master's clock an hour below zero, about to cross zero, about to cross 2^31 / 2^32
+    // microseconds, at i32::MIN milliseconds, after 30 days (LongPause crosses the boundaries)
+    for origin in [-3_600_000_000i64, -1_500, (1i64 << 31) - 1_500, (1i64 << 32) - 1_500, (i32::MIN as i64) * 1000, 30 * 86_400 * 1_000_000] {
+        for baud in tier.pick(vec![1u8], vec![1, 3]) {
+            let mut a = acts1.clone();
+            if !a.contains(&Act::LongPause) {
+                a.push(Act::LongPause);
+            }
+            let mut cfg = base_cfg(vec![PeriphCfg::simple(9, 2, 1)], mon, a);
+            cfg.rig.baud = baud;
+            cfg.rig.origin_us = origin;
+            plans.push(Plan { label: format!("sweep 1p baud#{baud} clock origin {origin}us"), cfg, depth: tier.pick(5, 8), max_states: tier.pick(20_000, 300_000), secs: tier.pick(60.0, 1200.0) });
+        }
+    }
     plans
 }
 
